@@ -21,28 +21,40 @@ Theorem C11_kind_tables_complete :
 Proof. exact kind_tables_complete. Qed.
 Print Assumptions C11_kind_tables_complete.
 
-(* ---- lookup order ------------------------------------------------------------------------- *)
-(* Full statement: every reference is rendered as the Spec accepts.  FALSE of the code in the two
-   regions refuted below; C11_lookup_order is the part outside them for references without item
-   part, for all projects and contexts. *)
-Definition C11_statement : Prop :=
-  forall p ctx r, ctx_ok p ctx -> urls_ok p = true -> ids_ok p = true ->
-                  spec_accepts p ctx r (convert_link p ctx r) = true.
+(* the regenerated SCOPE_LINK_TYPES (what find_in_scope searches for a component kind word) is the
+   Spec's reading of the word inside a scope; words without an entry ("file", "ext...") designate
+   nothing inside a scope and are no item kinds either *)
+Theorem C11_kind_tables_scope : forall x c,
+  In (x, c) (doc_comp_kinds ++ doc_ext_kinds) ->
+  match assoc_get x scope_link_types with
+  | Some attrs => attrs = scope_attrs x c
+  | None => scope_attrs x c = [] /\ assoc_get x sublink_types = None
+  end.
+Proof. exact scope_table. Qed.
+Print Assumptions C11_kind_tables_scope.
 
+Theorem C11_kind_tables_scope_complete :
+  forall kc, In kc scope_link_types -> exists c, In (fst kc, c) doc_comp_kinds.
+Proof. exact kind_tables_scope_complete. Qed.
+Print Assumptions C11_kind_tables_scope_complete.
+
+(* ---- lookup order ------------------------------------------------------------------------- *)
+(* [render] is what FordLinkProcessor.handleMatch produces.  For every project, context and
+   reference without item part (any documented kind word), it is what the Spec accepts: a link
+   into the first of the three levels that has a match, plain text if none has. *)
 Theorem C11_lookup_order : forall p ctx r,
   r_child r = None -> r_ckind r = None -> kind_documented (r_kind r) = true ->
-  region_kind_scope ctx r = false ->
   ctx_ok p ctx -> urls_ok p = true -> ids_ok p = true ->
-  spec_accepts p ctx r (convert_link p ctx r) = true.
+  spec_accepts p ctx r (render p ctx r) = true.
 Proof. exact lookup_order. Qed.
 Print Assumptions C11_lookup_order.
 
 (* without a context: the first match in the project collections, in table order *)
 Theorem C11_lookup_first_match : forall p r ids,
   r_child r = None -> project_ids p (r_kind r) = Some ids ->
-  convert_link p None r =
+  render p None r =
   match find_in p (r_name r) ids with
-  | Some i => finish p (Found i)
+  | Some i => settle (finish p (Found i))
   | None => RPlain
   end.
 Proof. exact lookup_first_match. Qed.
@@ -50,8 +62,8 @@ Print Assumptions C11_lookup_first_match.
 
 Theorem C11_absent_plain : forall p ctx r,
   (forall j, name_eqb (r_name r) (name_of p j) = false) ->
-  ctx_shapes p ctx -> kind_known (r_kind r) ->
-  convert_link p ctx r = RPlain.
+  ctx_shapes p ctx ->
+  render p ctx r = RPlain.
 Proof. exact absent_plain. Qed.
 Print Assumptions C11_absent_plain.
 
@@ -60,41 +72,27 @@ Theorem C11_case_insensitive : forall p ctx r r',
 Proof. exact case_insensitive. Qed.
 Print Assumptions C11_case_insensitive.
 
+(* whatever the reference says (unknown or impossible kind words, items without a page), the
+   conversion does not abort: the result is a link or plain text *)
+Theorem C11_no_abort : forall p ctx r,
+  all_shapes p -> render p ctx r = RPlain \/ exists j, render p ctx r = RLink j.
+Proof. exact no_abort. Qed.
+Print Assumptions C11_no_abort.
+
 (* ---- the item part ------------------------------------------------------------------------ *)
 Theorem C11_child_kind_error : forall p ctx r cn ck,
   r_child r = Some cn -> r_ckind r = Some ck ->
   assoc_get (lower ck) sublink_types = None ->
-  forall j, convert_link p ctx r <> RLink j.
+  forall j, render p ctx r <> RLink j.
 Proof. exact child_kind_error. Qed.
 Print Assumptions C11_child_kind_error.
 
 (* a link always leads to something called like the item, or (fall-back) like the component *)
 Theorem C11_child_sound : forall p ctx r j,
-  convert_link p ctx r = RLink j ->
+  render p ctx r = RLink j ->
   match r_child r with
   | Some cn => name_eqb cn (name_of p j) = true \/ name_eqb (r_name r) (name_of p j) = true
   | None => name_eqb (r_name r) (name_of p j) = true
   end.
 Proof. exact child_sound. Qed.
 Print Assumptions C11_child_sound.
-
-(* ---- refutations (known findings) --------------------------------------------------------- *)
-(* a kind word on the component makes the code skip the context and its parent *)
-Theorem C11_lookup_order_refuted :
-  exists p ctx r, r_child r = None /\ r_ckind r = None /\ kind_documented (r_kind r) = true /\
-    ctx_ok p ctx /\ urls_ok p = true /\ ids_ok p = true /\
-    region_kind_scope ctx r = true /\
-    convert_link p ctx r = RLink 2 /\ comp_cands p ctx r = [1] /\
-    spec_accepts p ctx r (convert_link p ctx r) = false /\
-    convert_link p ctx {| r_name := s "reset"; r_kind := None; r_child := None; r_ckind := None |}
-    = RLink 1.
-Proof. exact lookup_order_refuted. Qed.
-Print Assumptions C11_lookup_order_refuted.
-
-(* an item kind that the component cannot have raises instead of "warning, no link" *)
-Theorem C11_child_kind_refuted :
-  exists p ctx r, kind_documented (r_kind r) = true /\ ckind_documented (r_ckind r) = true /\
-    convert_link p ctx r = RErr /\ spec_accepts p ctx r RErr = false /\
-    spec_accepts p ctx r RPlain = true.
-Proof. exact child_kind_refuted. Qed.
-Print Assumptions C11_child_kind_refuted.
